@@ -258,6 +258,38 @@ func c15Run(e *core.Env) {
 			e.Violation(key, detail, cs, func() bool { k, _, _, _ := c15One(e, drv, cs, true); return k == key })
 		}
 	}
+	if e.Take() {
+		// a large target (700 transactions): "the choice is the same on every run" on the
+		// real binary with 1, 2, 8 and all CPUs, and the race detector on a free run
+		var sc scenario
+		for _, s := range raceOnlyScenarios() {
+			if s.Name == "big-infer-700" {
+				sc = s
+			}
+		}
+		drv.Files(sc.Files)
+		first := ""
+		for i, procs := range []string{"1", "8", "", "2", "8", ""} {
+			o := drv.RunBinaryProcs(procs, sc.Args...)
+			e.Count("evaluations")
+			e.Count("large_target_runs")
+			if o.Exit != 0 || o.Panic != "" {
+				e.Violation("C15:unexpected-failure:large-target", clip(o.Stderr, 1000), c15Case{}, nil)
+				break
+			}
+			if strings.Contains(o.Stdout, "Expenses:TBD") {
+				e.Violation("C15:placeholder-not-replaced:large-target", "candidates exist for every booking", c15Case{}, nil)
+				break
+			}
+			if i == 0 {
+				first = o.Stdout
+			} else if o.Stdout != first {
+				e.Violation("C15:choice-differs-between-runs:large-target", fmt.Sprintf("GOMAXPROCS=%q gives a different result than GOMAXPROCS=1 on the same 700-transaction target", procs), c15Case{}, nil)
+				break
+			}
+		}
+		raceTier(e, core.Pick(e, 2, 8), "C15", "big-infer")
+	}
 	for _, ph := range []string{"Expenses:TBD", "Assets:X"} {
 		trainings, targets := c15Training(ph), c15Targets(ph)
 		e.Note("placeholder %s: %d training journals x %d target journals", ph, len(trainings), len(targets))
